@@ -317,6 +317,7 @@ BACKENDS = {
     "asyncpathio": aioftp.AsyncPathIO,
 }
 FNAME = "f.bin"
+WATCHER = ("watcher", "pw")
 
 
 class Store:
@@ -474,7 +475,9 @@ async def _run_case(net, case, base):
     if case["block_size"] is not None:
         kw["block_size"] = case["block_size"]
     server = aioftp.Server(
-        [user],
+        # the observer of the other sessions logs in as a second user of the same tree, so that per-user
+        # speed limits slow the TRANSFER down and not the observer
+        [user, aioftp.User(*WATCHER, base_path=base if base is not None else "/", home_path="/")],
         path_io_factory=BACKENDS[backend],
         read_speed_limit=thr.get("server_read"),
         write_speed_limit=thr.get("server_write"),
@@ -562,7 +565,7 @@ async def _run_case(net, case, base):
         if case["observe_before"] in ("other", "both"):
             obs = aioftp.Client(passive_commands=("epsv",))
             await obs.connect("127.0.0.1", PORT)
-            await obs.login()
+            await obs.login(*WATCHER)
         res["before"] = {}
         if case["observe_before"] in ("same", "both"):
             res["before"]["same"] = await _observe(client, FNAME)
@@ -574,11 +577,17 @@ async def _run_case(net, case, base):
             if obs is None:
                 obs = aioftp.Client(passive_commands=("epsv",))
                 await obs.connect("127.0.0.1", PORT)
-                await obs.login()
+                await obs.login(*WATCHER)
             period, count = case["observe_during"]
 
+            transfer_done = asyncio.Event()
+
             async def watch():
+                # until the transfer is over (at most `count` rounds): the control channel of the slowed-down
+                # session is slow too, so the data phase starts late -- the observer keeps looking throughout
                 for _ in range(count):
+                    if transfer_done.is_set():
+                        break
                     await asyncio.sleep(period)
                     res["during"].append((asyncio.get_running_loop().time(), await _observe(obs, FNAME)))
 
@@ -602,14 +611,15 @@ async def _run_case(net, case, base):
         res["stored"] = store.get(FNAME)
         res["t_done"] = asyncio.get_running_loop().time()
         if watcher is not None:
-            await watcher  # the observer finishes its rounds before the final observations
+            transfer_done.set()
+            await watcher  # the observer finishes its round before the final observations
             res["during_inside"] = sum(1 for t, _ in res["during"] if res["t_start"] < t < res["t_done"])
         # the transferring session observes, and a SECOND session (an older one if it looked before)
         res["after_same"] = await _observe(client, FNAME)
         if obs is None:
             obs = aioftp.Client(passive_commands=("epsv",))
             await obs.connect("127.0.0.1", PORT)
-            await obs.login()
+            await obs.login(*WATCHER)
         res["after_other"] = await _observe(obs, FNAME)
         st = await obs.stat(FNAME)
         res["stat_size"] = int(st["size"])
@@ -1051,7 +1061,7 @@ def gen_session_cases(ctx, scale):
             _plabel="stalled")
 
     # -- 3c. another session stats + lists the target WHILE a multi-block transfer is in flight (the transfer is
-    #        slowed to one block per virtual second by a per-connection limit, the observer looks every 0.4-0.7 s)
+    #        slowed to one block per virtual second by a per-user limit; the observer is another user, the observer looks every 0.4-0.7 s)
     for backend in ("memory", "pathio", "asyncpathio", "buffered"):
         for verb in ("STOR", "APPE", "RETR"):
             for bs in (3, 8):
@@ -1059,7 +1069,7 @@ def gen_session_cases(ctx, scale):
                 old = bytes(rng.randrange(256) for _ in range(rng.randint(2 * bs, 6 * bs)))
                 off = rng.choice([0, 2, bs + 1]) if verb != "RETR" else rng.choice([0, 2, bs])
                 add(verb=verb, payload=payload, offset=off, old=old, block_size=bs, backend=backend, passive=next(toggle),
-                    throttle={"conn_read": bs, "conn_write": bs}, observe_during=[rng.choice([0.4, 0.7]), 8],
+                    throttle={"user_read": bs, "user_write": bs}, observe_during=[rng.choice([0.4, 0.7]), 150],
                     chunks=rng.choice([[], [bs]]), cblock=rng.choice([None, bs]), _plabel="observed_during")
 
     # -- 3d. the backend fails AT CLOSE (the file outgrows its quota; writes are buffered, the flush in close() fails
@@ -1867,6 +1877,10 @@ def replay(ctx, data):
     c = case_defaults(case)
     verb, payload, off, old = c["verb"], c["payload"], c["offset"], c["old"]
     print("result:", {k: (v.hex()[:120] if isinstance(v, bytes) else v) for k, v in res.items() if k not in ("seg_up", "seg_down")})
+    if (res["error"] and "451" in res["error"] and c["backend"] in CLOSE_FAULT_BACKENDS and verb in ("STOR", "APPE", "UPLOAD")
+            and len(py_spec_store("STOR" if verb in ("STOR", "UPLOAD") else "APPE", off, payload, old)) > CLOSE_LIMIT):
+        print("the backend's close() failed and the upload was answered 451: no positive completion reply, the property holds")
+        return True
     if res["error"]:
         return False
     if verb in ("STOR", "APPE", "UPLOAD"):
